@@ -7,7 +7,7 @@ LEVEL = 'model_checking'
 FILES = ['mesonbuild/mtest.py']
 ENCODED = ['mtest.TestHarness._run_tests (the real coroutine with its asyncio.Semaphore, futures deque, complete/complete_all, done callbacks, cancel_all_tests)',
            'TestHarness.process_test_result/is_bad_result/total_failure_count', 'TestRunExitCode.complete', 'TestRun._complete/complete_skip',
-           'TestResult.is_ok/is_bad', 'mtest.test_slice', 'TestHarness.get_tests/test_suitable/test_in_suites/split_suite_string']
+           'TestResult.is_ok/is_bad', 'TestHarness.doit (job-count clamp, runner creation; rebuild and run_tests stubbed)', 'mtest.test_slice', 'TestHarness.get_tests/test_suitable/test_in_suites/split_suite_string']
 EXPLANATION = ('The real _run_tests coroutine is driven on a manually stepped asyncio event loop: SingleTestRunner.run is a stub awaiting a future that only the harness '
                'resolves, so WHICH running test completes next at every quiescent point is a choose() explored exhaustively, while is_parallel of every runner is a '
                'symbolic Boolean, the result class symbolic, and job count / repeat / maxfail enumerated. Classification runs TestRunExitCode.complete on a symbolic '
@@ -160,6 +160,40 @@ def ob_classify(nres):
     return h
 
 
+def ob_doit():
+    """TestHarness.doit: the job count handed to the scheduler never exceeds the requested one (and every selected test gets one runner per repetition)"""
+    def h():
+        import os
+        n = 1 + choose(3, 'ntests')
+        jobs = sym_int('num_processes', 1, 6); repeat = sym_int('repeat', 1, 3)
+        hh = object.__new__(M.TestHarness)
+        tests = [FakeTest('t%d' % i, ['p:s']) for i in range(n)]
+        hh.is_run = False; hh.tests = tests
+        hh.get_tests = lambda: tests
+        hh.options = argparse.Namespace(num_processes=jobs, repeat=repeat, no_rebuild=True, wd=os.getcwd(), benchmark=False)
+        hh.get_pretty_suite = lambda t: t.name
+        seen = {}
+
+        class R:
+            timeout = 30; console_mode = M.ConsoleUser.LOGGER
+            def __init__(self, t, i): self.t, self.i = t, i
+        hh.get_test_runner = lambda t, i: R(t, i)
+        def run_tests(runners):
+            seen['jobs'] = hh.options.num_processes; seen['runners'] = list(runners)
+        hh.run_tests = run_tests
+        hh.total_failure_count = lambda: 0
+        rc = hh.doit()
+        check(rc == 0, 'exit status 0 when nothing failed')
+        check(seen['jobs'] <= jobs, 'the scheduler never gets more jobs than requested')
+        check(seen['jobs'] >= 1, 'at least one job')
+        rep = concretize_int(repeat) if is_sym(repeat) else repeat
+        check(len(seen['runners']) == n * rep, 'one runner per selected test and repetition')
+        for t in tests:
+            check(sum(1 for r in seen['runners'] if r.t is t) == rep, 'each test once per repetition')
+        cover('done')
+    return h
+
+
 class FakeTest:
     def __init__(self, name, suite): self.name = name; self.suite = suite; self.project_name = 'p'
 
@@ -206,6 +240,7 @@ def obligations(tier):
     for k in (1, 2) if q else (1, 2, 3):
         out.append(Obligation('classify[%d]' % k, ob_classify(k), dict(results=k, returncode='any integer', expected_exitcode='None|0|any', should_fail='symbolic'),
                               labels=tuple(NAMES), max_paths=3000000))
+    out.append(Obligation('doit-job-clamp', ob_doit(), dict(tests='1-3', num_processes='symbolic 1..6', repeat='symbolic 1..3'), labels=('done',)))
     for n in (1, 3, 4) if q else (1, 2, 3, 4, 5, 6):
         out.append(Obligation('slice[%d tests]' % n, ob_slice(n), dict(tests=n, slice_arg='d/d with symbolic digits'), labels=('partition', 'rejected')))
     return out
